@@ -10,7 +10,7 @@ def _cls(c):
 
 
 def run(ck):
-    ck.rule = ("TLC enumerates every (RemoteNode method, origin error, plain | %w-wrapped) over the 18 defined chord errors + "
+    ck.rule = ("TLC enumerates every (RemoteNode method, origin error, plain | wrapped with one %w | joined with errors.Join | second of two %w | behind an Is method) over the 18 defined chord errors + "
                "context.DeadlineExceeded + an arbitrary error + an unknown error whose text merely ends with the text of a retryable one, and the 21 RPC methods; each case goes through a real twirp "
                "server/client pair (chord.Server over a stub node returning the origin error -> generated twirp servers -> "
                "net/http over net.Pipe -> rpc.DynamicChordClient -> chord.RemoteNode); the two-sided observation is read back "
@@ -53,7 +53,7 @@ def run(ck):
         if v["ok"]:
             continue
         reproduced += 1
-        w = "wrapped" if cc["wrap"] else "plain"
+        w = ("wrapped" if cc.get("shape", "single") == "single" else "wrapped-" + cc["shape"]) if cc["wrap"] else "plain"
         what = []
         if v["noError"]:
             what.append("no-error")
